@@ -208,19 +208,24 @@ def wrappers(inner_name, mk_inner, quick):
   out = []
   # shifting ("currently only supports flat double search spaces")
   all_double = all(pc.type == vz.ParameterType.DOUBLE for pc in params)
-  for shift, restrict in ([(0.5, True), (-0.25, True), (0.0, False)] if all_double else []):
+  mixed = [(0.5 if i % 2 == 0 else -0.25) for i in range(len(params))]
+  for shift, restrict in ([(0.5, True), (-0.25, True), (mixed, True), ([-x for x in mixed], True), (0.0, False)] if all_double else []):
     def rel(point, got, t, shift=shift, restrict=restrict):
       mapped = {}
-      for pc in params:
-        v = point[pc.name] - shift
+      for i, pc in enumerate(params):
+        v = point[pc.name] - (shift[i] if isinstance(shift, list) else shift)
+        lo, hi = pc.bounds
         if restrict:
-          v = min(max(v, pc.bounds[0]), pc.bounds[1])
+          # the restricted search space is exactly the set of points whose shifted image lies in the inner space
+          if not (lo - 1e-9 * max(1.0, abs(lo)) <= v <= hi + 1e-9 * max(1.0, abs(hi))):
+            return 'point %r of the restricted search space maps to %s=%r, outside the inner range [%r, %r]' % (point, pc.name, v, lo, hi)
+          v = min(max(v, lo), hi)
         mapped[pc.name] = v
       if not restrict and any(not (pc.bounds[0] <= mapped[pc.name] <= pc.bounds[1]) for pc in params):
         return None   # outside the inner space: behaviour not specified
       want, _ = inner_at(mapped)
       return None if close(got, want) else 'shifted point %r: got %s, inner at x - shift gives %s' % (point, got, want)
-    out.append(('shifting(%s,%s)' % (shift, restrict), lambda shift=shift, restrict=restrict: shifting_experimenter.ShiftingExperimenter(mk_inner(), np.asarray(shift), should_restrict=restrict), rel, True))
+    out.append(('shifting(%s,%s)' % (shift, restrict), lambda shift=shift, restrict=restrict: shifting_experimenter.ShiftingExperimenter(mk_inner(), np.asarray(shift, dtype=float) if isinstance(shift, list) else np.asarray(shift), should_restrict=restrict), rel, True))
 
   # sign flip (and involution)
   def rel_flip(point, got, t):
